@@ -232,12 +232,24 @@ class Threadless(ABC, Generic[T]):
         unfinished_work_ids = set()
         for task in self.unfinished:
             unfinished_work_ids.add(task._work_id)   # type: ignore
+        failed_work_ids = []
         for work_id in self.works:
             # We don't want to invoke work objects which haven't
             # yet finished their previous task
             if work_id in unfinished_work_ids:
                 continue
-            await self._update_work_events(work_id)
+            try:
+                await self._update_work_events(work_id)
+            except Exception as exc:
+                # Failure to refresh events of a work must only
+                # tear down that work, not the entire executor.
+                logger.exception(
+                    'Exception while updating events for work#{0}'.format(work_id),
+                    exc_info=exc,
+                )
+                failed_work_ids.append(work_id)
+        for work_id in failed_work_ids:
+            self._cleanup(work_id)
         await self._update_conn_pool_events()
 
     async def _selected_events(self) -> Tuple[
